@@ -1,6 +1,7 @@
 import Driver.Util
 import AslModel.Model.CodeFile
 import AslModel.Model.CodeStmt
+import AslModel.Model.CodeCtl
 /-! Driver mode `c04`: one program per request line; mode `c04s`: one `asl` call with several sources per line.
 
 request `c04`  : `<filehex> <cpu> <seg> <gran> <pc0> <end> st*`
@@ -9,6 +10,11 @@ request `c04s` : the same groups, one per source in command-line order, separate
   st = `e:<hex>`                        a statement that hands these bytes to WriteBytes once
      | `j:<cpu>,<seg>,<gran>,<pc>`      a DontPrint statement (ORG, reservation, SEGMENT, CPU ...): NewRecord(pc) in that context
      | `b:<ofs>,<len|->,<filehex>`      BINCLUDE of a file with these contents
+     | `D:<hex>` | `R:<n>` | `O:<addr>` | `G:<seg>` | `C:<id>,<family>,<seg>=<gran>/<seg>=<gran>...` | `S` | `T`
+                                        source statements of `Model/CodeCtl.lean`: data, reservation, ORG, SEGMENT, CPU (processor
+                                        table entry), SAVE, RESTORE.  A source is given either in these or in `e:`/`j:`/`b:`; the
+                                        record-opening decisions are then the MODEL's (`ctlStmts`), the expected cells the SPEC's
+                                        (`specCellsC`), from the globals `csInit <cpu> <seg> <gran> <pc0>`.
      | `p:<n>`                          the source is assembled in n further passes
      | `q:<n>`                          cost bound for executing the byte machine (L1) on this source, see `l1`
 answer per source (joined by ` | ` in mode `c04s`):
@@ -31,11 +37,30 @@ open AslModel.PFile AslModel.CodeFile
 
 inductive Tok where
   | st (s : Stmt)
+  | ctl (x : Ctl)
   | passes (n : Nat)
   | budget (n : Nat)
 
+def parseCpu (s : String) : Option Cpu :=
+  match s.splitOn "," with
+  | [i, h, g] =>
+    let gs := (g.splitOn "/").mapM (fun (p : String) => match (p.splitOn "=").map String.toNat? with
+      | [some a, some v] => some (b a, b v)
+      | _ => none)
+    match i.toNat?, h.toNat?, gs with
+    | some i, some h, some gs => some ⟨i, b h, gs⟩
+    | _, _, _ => none
+  | _ => none
+
 def parseTok (s : String) : Option Tok :=
-  if s.startsWith "e:" then (unhex (s.drop 2).toString).map (fun x => Tok.st (.ev (.emit x)))
+  if s = "S" then some (.ctl .save)
+  else if s = "T" then some (.ctl .restore)
+  else if s.startsWith "D:" then (unhex (s.drop 2).toString).map (fun x => Tok.ctl (.data x))
+  else if s.startsWith "R:" then (s.drop 2).toString.toNat?.map (fun n => Tok.ctl (.res n))
+  else if s.startsWith "O:" then (s.drop 2).toString.toNat?.map (fun n => Tok.ctl (.org n))
+  else if s.startsWith "G:" then (s.drop 2).toString.toNat?.map (fun n => Tok.ctl (.segment (b n)))
+  else if s.startsWith "C:" then (parseCpu (s.drop 2).toString).map (fun c => Tok.ctl (.cpu c))
+  else if s.startsWith "e:" then (unhex (s.drop 2).toString).map (fun x => Tok.st (.ev (.emit x)))
   else if s.startsWith "j:" then
     match ((s.drop 2).toString.splitOn ",").map String.toNat? with
     | [some c, some sg, some g, some pc] => some (.st (.ev (.jump ⟨b c, b sg, b g⟩ pc)))
@@ -55,7 +80,7 @@ def parseEnd (s : String) : Option EndStmt :=
   if s = "-" then some .absent else if s = "e" then some .plain else s.toNat?.map EndStmt.addr
 
 /-- one source: the real file and the source description (creator still empty) -/
-def parseGroup (ws : List String) : Option (List Byte × Src × Option Nat) :=
+def parseGroup (ws : List String) : Option (List Byte × Src × Option Nat × List Cell) :=
   match ws with
   | fh :: cpu :: seg :: gran :: pc0 :: ent :: toks =>
     match unhex fh, cpu.toNat?, seg.toNat?, gran.toNat?, pc0.toNat?, parseEnd ent, toks.mapM parseTok with
@@ -63,7 +88,15 @@ def parseGroup (ws : List String) : Option (List Byte × Src × Option Nat) :=
       let stmts := tl.filterMap (fun t => match t with | .st x => some x | _ => none)
       let np := tl.foldl (fun a t => match t with | .passes n => a + n | _ => a) 0
       let q := tl.foldl (fun a t => match t with | .budget n => some n | _ => a) none
-      some (file, { ctx := ⟨b c, b s, b g⟩, pc0 := pc, stmts := stmts, endS := e, morePasses := np, creator := [] }, q)
+      let ctls := tl.filterMap (fun t => match t with | .ctl x => some x | _ => none)
+      let ctx : Ctx := ⟨b c, b s, b g⟩
+      if ctls.isEmpty then
+        some (file, { ctx := ctx, pc0 := pc, stmts := stmts, endS := e, morePasses := np, creator := [] }, q, specCellsS ctx pc stmts)
+      else if !stmts.isEmpty then none
+      else
+        -- MODEL: the DontPrint decisions of asmallg.c make the events; SPEC: the manual's reading makes the cells
+        let s0 := csInit ctx pc
+        some (file, { ctx := ctx, pc0 := pc, stmts := ctlStmts s0 ctls, endS := e, morePasses := np, creator := [] }, q, specCellsC s0 ctls)
     | _, _, _, _, _, _, _ => none
   | _ => none
 
@@ -91,8 +124,8 @@ def useThm (s : Src) (q : Option Nat) : Bool :=
     decide ((total / 512 + 8 * jumps + 1) * total > bound) && small && hlen
 
 /-- verdict on one real file against its source and the model's file -/
-def judge (file : List Byte) (s : Src) (items : List Item) (mfile : List Byte) (thm : Bool) : String :=
-  let cellsOk := cellsOf items == specCellsS s.ctx s.pc0 s.stmts
+def judge (file : List Byte) (s : Src) (want : List Cell) (items : List Item) (mfile : List Byte) (thm : Bool) : String :=
+  let cellsOk := cellsOf items == want
   let entOk := entries items == specEntries s.endS
   let cons := (dataRecs items).all (fun r => r.consistent && !r.data.isEmpty)
   let meq := mfile == file
@@ -106,15 +139,15 @@ def handleSession (line : String) : String :=
   | none => "bad-request"
   | some gs =>
     -- the creator string is taken from each real file (it is not part of what the source specifies)
-    let parsed := gs.map (fun (file, s, q) => (file, s, q, parseFile file))
-    let srcs := parsed.map (fun (_, s, q, p) => (match p with | some (_, cr) => { s with creator := cr } | none => s, q))
+    let parsed := gs.map (fun (file, s, q, want) => (file, want, s, q, parseFile file))
+    let srcs := parsed.map (fun (_, _, s, q, p) => (match p with | some (_, cr) => { s with creator := cr } | none => s, q))
     let thms := srcs.map (fun (s, q) => useThm s q)
     let mfiles := if thms.any id then (srcs.zip thms).map (fun ((s, _), t) => if t then l2File s else alone s)
                   else session {} (srcs.map (·.1))
-    let answers := (parsed.zip (srcs.zip (mfiles.zip thms))).map (fun ((file, _, _, p), ((s, _), (mf, t))) =>
+    let answers := (parsed.zip (srcs.zip (mfiles.zip thms))).map (fun ((file, want, _, _, p), ((s, _), (mf, t))) =>
       match p with
       | none => "parse=bad model=? cells=? entry=? consistent=? l2=? l1=? nrec=0"
-      | some (items, _) => judge file s items mf t)
+      | some (items, _) => judge file s want items mf t)
     " | ".intercalate answers
 
 /-- one source = a session of one -/
